@@ -192,22 +192,22 @@ func (mr *v13Mirror) situation(msgs []*v13Msg, l *vLeaf, workers int, wantPresen
 			}
 		}
 	}
-	// a notification touching l can still be in flight when a later start/end
-	// is handled: with W workers notification i is certainly finished at
-	// message j only if W notifications were admitted in between
-	if workers >= 1 {
+	// a notification touching l can still be in flight when a later sync start
+	// is handled (the start does not take a worker slot): its write then
+	// carries the new cycle's mark and survives the cycle's end although the
+	// cycle did not report it. With W workers notification i is certainly
+	// finished at message j only if W notifications were admitted in between.
+	if workers >= 1 && !wantPresent && stored > 0 {
 		for i, m := range msgs {
 			if !touches(m) {
 				continue
 			}
 			between := 0
 			for _, n := range msgs[i+1:] {
-				switch n.kind {
-				case v13Start, v13End:
-					if between < workers {
-						return "/sync-start-or-end-does-not-wait-for-workers"
-					}
-				default:
+				if n.kind == v13Start && between < workers {
+					return "/sync-start-does-not-wait-for-workers"
+				}
+				if n.kind == v13Update || n.kind == v13Delete {
 					between++
 				}
 			}
@@ -495,12 +495,13 @@ func VerifSync() {
 	verifrt.AwaitQuiescence()
 	verifrt.Assert(verifrt.Goroutines() == 0, "C13-sync-stops-on-cancel")
 
+	// for the situation analysis a two-update notification touches both leaves
+	hist := append([]*v13Msg{}, msgs...)
 	for _, msg := range msgs {
 		if msg.both {
-			// for the situation analysis a two-update notification touches both leaves
-			msgs = append(msgs, &v13Msg{kind: v13Update, leaf: sc.leaves[1]})
-			break
+			hist = append(hist, &v13Msg{kind: v13Update, leaf: sc.leaves[1]})
 		}
 	}
+	msgs = hist
 	m.assertMirror(env, msgs, workers, validate, "C13")
 }
